@@ -2,7 +2,7 @@
 # Generates /verif/sim/go.mod + go.sum from $VERIF_REPO/go.mod (default /repo), offline.
 set -e
 REPO=${VERIF_REPO:-/repo}
-SIM=/verif/sim
+SIM=${VERIF_SIM:-/verif/sim}
 {
   echo "module verif"
   echo
@@ -22,5 +22,5 @@ SIM=/verif/sim
 } > $SIM/go.mod.new
 if ! cmp -s $SIM/go.mod.new $SIM/go.mod; then mv $SIM/go.mod.new $SIM/go.mod; else rm $SIM/go.mod.new; fi
 if [ ! -f $SIM/go.sum ] || [ $REPO/go.sum -nt $SIM/go.sum ]; then
-  cat $REPO/go.sum /verif/sim/extra.sum 2>/dev/null | sort -u > $SIM/go.sum
+  cat $REPO/go.sum $SIM/extra.sum 2>/dev/null | sort -u > $SIM/go.sum
 fi
